@@ -35,6 +35,31 @@ Theorem C18_lambda_is_a_tent : forall D k t, (k < length D)%nat -> exists bd, In
 Proof. exact lambda_is_a_tent. Qed.
 Print Assumptions C18_lambda_is_a_tent.
 
+(* the mathematics of one step of the characteristic-point sweep: nested intervals have ordered tents; for crossing
+   intervals the pointwise minimum of the two tents is the tent of the intersection point (b', d) that the sweep hands to
+   the next level; for disjoint or touching intervals nothing is handed on; the same with the running envelope of the
+   tents swept so far in place of the first tent *)
+Theorem C18_tent_nested_le : forall b d b' d' t, b <= b' -> d' <= d -> tent (b', d') t <= tent (b, d) t.
+Proof. exact tent_nested_le. Qed.
+Print Assumptions C18_tent_nested_le.
+
+Theorem C18_tent_cross_min : forall b d b' d' t, b <= b' -> d <= d' -> qmin (tent (b, d) t) (tent (b', d') t) == tent (b', d) t.
+Proof. exact tent_cross_min. Qed.
+Print Assumptions C18_tent_cross_min.
+
+Theorem C18_tent_disjoint_min : forall b d b' d' t, b <= d -> b' <= d' -> d <= b' -> qmin (tent (b, d) t) (tent (b', d') t) == 0.
+Proof. exact tent_disjoint_min. Qed.
+Print Assumptions C18_tent_disjoint_min.
+
+Theorem C18_sweep_step_min : forall env bL dL b' d' t,
+  tent (bL, dL) t <= env -> env <= qmax 0 (dL - t) -> bL <= b' -> dL <= d' ->
+  qmin env (tent (b', d') t) == tent (b', dL) t.
+Proof. exact sweep_step_min. Qed.
+Print Assumptions C18_sweep_step_min.
+Example C18_sweep_step_min_nonvacuous :
+  let env := tent (0, 4 # 1) (3 # 1) in tent (0, 4 # 1) (3 # 1) <= env /\ env <= qmax 0 ((4 # 1) - (3 # 1)) /\ 0 <= 2 # 1 /\ 4 # 1 <= 6 # 1.
+Proof. vm_compute. repeat split; discriminate. Qed.
+
 (* ---------------------------------------------------------------- piecewise-linear functions *)
 (* a PL function takes its ordinate at each of its breakpoints *)
 Theorem C18_interp_at_breakpoint : forall l p, xsorted l -> In p l -> interp l (fst p) == snd p.
